@@ -8,7 +8,7 @@ from ..util import KIND, EPS
 
 PROPERTY = "C09"
 PYTEST_PREFIX = "C09/"
-TECHNIQUE = "runtime monitoring: contract monitor + shadow executions (permutation, aliasing, single-player increments)"
+TECHNIQUE = "runtime monitoring: contract monitor + shadow executions (permutation, aliasing, single-player increments, in-place edit vs fresh)"
 LEVEL = "exploration"
 RULE = ("Contract + shadow executions on the real predict_win: one number per team, each in [0,1] (4 ulp), sum within "
         "1e-12 of 1; a random permutation of teams (and of players within teams) permutes the result (1e-12); identical "
